@@ -10,6 +10,8 @@ package main
 // tables/c18_allowed.json with the reason it is harmless, or is a finding.
 
 import (
+	"go/ast"
+	"sync"
 	"encoding/json"
 	"fmt"
 	"go/types"
@@ -269,4 +271,81 @@ func c18DecoderReset(P *Program, tier string) []extraResult {
 
 func init() {
 	extraChecks["C18"] = append(extraChecks["C18"], c18Sweep, c18DecoderReset)
+}
+
+// c18LexerActions: every lexer action (a function of the type yqAction, func(lexer.Token) (*token, error))
+// must hand back a token of its own: the token, its Operation and its AssignOperation are allocated by that
+// very call. handleToken later writes into them (UpdateAssign, ...), so an action that hands out an object it
+// keeps (one allocated when the rule table is built, say) would let one parsed expression rewrite another.
+// One synthetic contract, checked without annotation against every function of that signature.
+func c18LexerActions(P *Program, tier string) []extraResult {
+	t0 := time.Now()
+	txt := "result1 != nil || (result0 != nil && fresh(result0) && (result0.Operation == nil || fresh(result0.Operation)) && (result0.AssignOperation == nil || fresh(result0.AssignOperation)))"
+	var names []string
+	for name, fn := range P.funcs {
+		sig := fn.Signature
+		if sig.Recv() != nil || sig.Params().Len() != 1 || sig.Results().Len() != 2 || len(fn.Blocks) == 0 {
+			continue
+		}
+		if !strings.HasSuffix(types.TypeString(sig.Params().At(0).Type(), nil), "lexer.Token") || !strings.HasSuffix(types.TypeString(sig.Results().At(0).Type(), nil), "yqlib.token") {
+			continue
+		}
+		if P.getContract(name) != nil {
+			continue
+		}
+		names = append(names, name)
+	}
+	sort.Strings(names)
+	dir, cleanup := tempDir()
+	defer cleanup()
+	var out []extraResult
+	var mu sync.Mutex
+	var wg sync.WaitGroup
+	sem := make(chan struct{}, 8)
+	okc := 0
+	for _, n := range names {
+		wg.Add(1)
+		go func(n string) {
+			defer wg.Done()
+			sem <- struct{}{}
+			defer func() { <-sem }()
+			con := &Contract{FuncName: n, Loops: map[int]*LoopContract{}, Lets: map[string]ast.Expr{}, Flags: map[string]bool{"synth": true, "noframe": true},
+				Ensures: []*Clause{{Kind: "ensures", Label: "a-token-of-its-own", Text: txt, Expr: mustParse(txt)}}}
+			vc, err := P.generateFixpoint(P.funcs[n], con, genOpts{functional: true}, 10000)
+			if err != nil {
+				mu.Lock()
+				out = append(out, extraResult{Name: "actions/" + n + "/generate", Kind: "sweep", OK: false, Detail: err.Error()})
+				mu.Unlock()
+				return
+			}
+			var sel []*Obligation
+			for _, o := range vc.Obls {
+				if o.Kind == "post" {
+					sel = append(sel, o)
+				}
+			}
+			for _, r := range P.discharge(sel, dir, 10000, false, "") {
+				mu.Lock()
+				if r.OK {
+					okc++
+				} else {
+					out = append(out, extraResult{Name: "actions/" + r.Obl.Name, Kind: "sweep", OK: false,
+						Detail: fmt.Sprintf("%s:%d: this lexer action may return a token, Operation or AssignOperation that it did not allocate in this call\nverdict %s %v", shortFile(r.Obl.Pos.Filename), r.Obl.Pos.Line, r.Res.Verdict, r.Res.All)})
+				}
+				mu.Unlock()
+			}
+		}(n)
+	}
+	wg.Wait()
+	sort.Slice(out, func(i, j int) bool { return out[i].Name < out[j].Name })
+	out = append([]extraResult{{Name: "actions/sweep", Kind: "sweep", OK: okc > 10, Count: okc,
+		Detail: fmt.Sprintf("%d lexer actions checked without annotation against 'returns a token, Operation and AssignOperation of its own'; %d return sites discharged, %d not", len(names), okc, len(out))}}, out...)
+	for i := range out {
+		out[i].Ms = time.Since(t0).Milliseconds()
+	}
+	return out
+}
+
+func init() {
+	extraChecks["C18"] = append(extraChecks["C18"], c18LexerActions)
 }
